@@ -165,4 +165,41 @@ def triggers (q : Quirks) (n : Nat) (resyn : Section → Except String SecResult
     | .ok r => accept q n s r && !nameStable n r.qmap
     | .error _ => false
 
+/-! ## what the repaired code splices in: X gates of self-negations
+
+(`QV/Proofs/Decopt2.lean`: a re-synthesis of distinct definitions of `q0 … q{n-1}` whose qubit map
+is `nameStable` has this shape; a splice of this shape is `SectionOK`.) -/
+
+/-- the index `i < n` with `q{i} = name` -/
+def qidx (n : Nat) (name : String) : Option Nat := (List.range n).find? fun i => qname i == name
+
+/-- the definition `q = ~q` -/
+def selfNeg (p : String × BExp) : Bool := p.2 == BExp.not (.sym p.1)
+
+/-- the definition `q = q` -/
+def selfId (p : String × BExp) : Bool := p.2 == BExp.sym p.1
+
+/-- the qubits whose definition is `q = ~q`, in the order of the definitions -/
+def negated (n : Nat) (exprs : List (String × BExp)) : List Nat :=
+  (exprs.filter selfNeg).filterMap fun p => qidx n p.1
+
+/-- every definition handed to the compiler is `q = q` or `q = ~q`, and the re-synthesised gate list
+is one X gate per self-negation, in the order of the definitions -/
+def xonly (n : Nat) (exprs : List (String × BExp)) (gates : List AGate) : Bool :=
+  exprs.all (fun p => selfId p || selfNeg p) &&
+  gates.map (fun g => (g.cls, g.wires)) == (negated n exprs).map fun i => (GClass.X, [i])
+
+/-- the definitions are keyed by pairwise distinct names of qubits of the circuit -/
+def keysOK (n : Nat) (exprs : List (String × BExp)) : Bool :=
+  decide (exprs.map (·.1)).Nodup && exprs.all fun p => (qidx n p.1).isSome
+
+/-- every section the loop splices in is of the `xonly` shape (checked per run by the harness;
+`QV.C12.accepted_xonly` proves it for the repaired model) -/
+def xonlyRun (q : Quirks) (n : Nat) (simpSec : Section → List (String × BExp))
+    (resyn : Section → Except String SecResult) (secs : List Section) : Bool :=
+  secs.all fun s =>
+    match resyn s with
+    | .ok r => !accept q n s r || xonly n (simpSec s) r.gates
+    | .error _ => true
+
 end QV.Decopt
